@@ -264,6 +264,7 @@ func c31RunOnce(t *testing.T, cj []byte, res *vfResult) {
 	var lines []string
 	logf := func(f string, a ...any) { lines = append(lines, fmt.Sprintf(f, a...)) }
 	arrivals := make([]int, n)
+	refused := make([]int, n)
 	inSample := make([]int, n) // 1-based index of the sample that contains the packet
 	var emitted []c31Emitted
 	lastMax := -1
@@ -356,8 +357,8 @@ func c31RunOnce(t *testing.T, cj []byte, res *vfResult) {
 		for _, k := range run {
 			if inSample[k] != 0 {
 				cls := "packet-in-two-samples"
-				if arrivals[k] > 1 {
-					cls += ":pushed-more-than-once"
+				if arrivals[k]-refused[k] > 1 {
+					cls += ":pushed-more-than-once" // the builder kept more than one copy of this packet
 				}
 				res.violate(cls, fmt.Sprintf("%s: packet %s is in sample %d and again in sample %d (pushed %d time(s))\n%s", when, desc(k), inSample[k], len(emitted)+1, arrivals[k], history()))
 				return
@@ -414,8 +415,12 @@ func c31RunOnce(t *testing.T, cj []byte, res *vfResult) {
 			}
 			arrivals[d.K]++
 			logf("push %s", desc(d.K))
+			rel0 := released
 			sb.Push(&rtp.Packet{Header: rtp.Header{Version: 2, PayloadType: 96, SequenceNumber: p.seq, Timestamp: p.ts, Marker: p.tail, SSRC: 0x31},
 				Payload: append([]byte{}, p.payload...)})
+			if arrivals[d.K] > 1 && released > rel0 {
+				refused[d.K]++ // a repeated copy the builder gave back at once (it never held two copies)
+			}
 			when := fmt.Sprintf("pop after push %d", di)
 			switch {
 			case d.Pops < 0:
